@@ -26,6 +26,9 @@ VF_E void* c_memmove(void* d, void const* s, size_type n) { return etl::memmove(
 VF_E void* c_memset(void* d, int c, size_type n) { return etl::memset(d, c, n); }
 VF_E int c_memcmp(void const* a, void const* b, size_type n) { return etl::memcmp(a, b, n); }
 VF_E void const* c_memchr(void const* p, int c, size_type n) { return etl::memchr(p, c, n); }
+// the non-const overloads are separate function bodies
+VF_E void* c_memchr_m(void* p, int c, size_type n) { return etl::memchr(p, c, n); }
+VF_E char* c_strrchr_m(char* s, int ch) { return etl::strrchr(s, ch); }
 
 VF_E size_type w_wcslen(wchar_t const* s) { return etl::wcslen(s); }
 VF_E int w_wcscmp(wchar_t const* a, wchar_t const* b) { return etl::wcscmp(a, b); }
@@ -45,6 +48,9 @@ VF_E wchar_t* w_wmemmove(wchar_t* d, wchar_t const* s, size_type n) { return etl
 VF_E wchar_t* w_wmemset(wchar_t* d, wchar_t c, size_type n) { return etl::wmemset(d, c, n); }
 VF_E int w_wmemcmp(wchar_t const* a, wchar_t const* b, size_type n) { return etl::wmemcmp(a, b, n); }
 VF_E wchar_t const* w_wmemchr(wchar_t const* p, wchar_t c, size_type n) { return etl::wmemchr(p, c, n); }
+VF_E wchar_t* w_wmemchr_m(wchar_t* p, wchar_t c, size_type n) { return etl::wmemchr(p, c, n); }
+VF_E wchar_t* w_wcschr_m(wchar_t* s, int ch) { return etl::wcschr(s, ch); }
+VF_E wchar_t* w_wcsrchr_m(wchar_t* s, int ch) { return etl::wcsrchr(s, ch); }
 
 #define CT(X) X(isalnum) X(isalpha) X(isblank) X(iscntrl) X(isdigit) X(isgraph) X(islower) X(isprint) X(ispunct) X(isspace) X(isupper) X(isxdigit) X(tolower) X(toupper)
 #define X(f) VF_E int ct_##f(int c) { return etl::f(c); }
